@@ -25,6 +25,7 @@ type mval struct {
 	isC    bool // pointer-receiver Cloner
 	isV    bool // value-receiver Cloner
 	isM    bool // map-kind Cloner with one reference element (c[0])
+	isW    bool // slice-kind Cloner
 	isNil  bool
 	isCNil bool // a nil pointer of the Cloner type
 }
@@ -74,6 +75,8 @@ func (st mstore) render() string {
 			b.WriteString("V{" + strings.Join(v.c, ",") + "}")
 		} else if v.isM {
 			b.WriteString("M{" + strings.Join(v.c, ",") + "}")
+		} else if v.isW {
+			b.WriteString("W{" + strings.Join(v.c, ",") + "}")
 		} else if v.isCNil {
 			b.WriteString("C<nil>")
 		} else if v.isNil {
@@ -297,6 +300,15 @@ func (m *Model) apply(st mstore, ops []kernel.StateOp) mstore {
 				st = st.with(op.Key, mval{isM: true, c: []string{v.c[0] + "+" + op.Val}})
 			} else {
 				st = st.with(op.Key, mval{isM: true, c: []string{op.Val}})
+			}
+		case "sset":
+			st = st.with(op.Key, mval{isW: true, c: []string{op.Val, op.Val + "b", op.Val + "c"}})
+			st = st.with("t"+op.Key[1:], mval{isW: true, c: []string{op.Val}})
+		case "smut":
+			if v, ok := st[op.Key]; ok && v.isW {
+				st = st.with(op.Key, mval{isW: true, c: append(append([]string(nil), v.c...), op.Val)})
+			} else {
+				st = st.with(op.Key, mval{isW: true, c: []string{op.Val}})
 			}
 		case "vmut":
 			if v, ok := st[op.Key]; ok && v.isV && len(v.c) > 0 {
